@@ -1,4 +1,5 @@
 pub mod alias;
 pub mod hist;
+pub mod registry;
 pub mod value;
 pub mod vecs;
